@@ -127,6 +127,7 @@ pub struct Rewriter<'a> {
     pub user_calls: Vec<String>,
     pub world: bool,
     pub collect_type: Option<String>,
+    pub drop_takes: bool,
 }
 
 impl<'a> Rewriter<'a> {
@@ -418,6 +419,20 @@ impl<'a> VisitMut for Rewriter<'a> {
         visit_mut::visit_expr_mut(self, e);
     }
 
+    fn visit_stmt_mut(&mut self, st: &mut Stmt) {
+        // R6-drop: `x.take();` discards (drops) the taken Sender: the drop is made explicit
+        if self.drop_takes && self.world {
+            if let Stmt::Expr(Expr::MethodCall(m), Some(_)) = st {
+                if m.method == "take" && m.args.is_empty() {
+                    let e = Expr::MethodCall(m.clone());
+                    *st = parse_quote! { vx_drop_sender_opt(#e, Tracked(w)); };
+                    self.fired.push("R6-drop-taken-sender".into());
+                }
+            }
+        }
+        visit_mut::visit_stmt_mut(self, st);
+    }
+
     fn visit_pat_mut(&mut self, p: &mut Pat) {
         // R14: the irrefutable pattern `&()` becomes `_` (Verus has no reference patterns)
         if let Pat::Reference(r) = p {
@@ -475,6 +490,7 @@ pub fn apply_all(block: &mut Block, item: &Value, fired: &mut Vec<String>, name:
         user_calls: list("user_calls"),
         world: item.get("world").and_then(|x| x.as_bool()).unwrap_or(false),
         collect_type: item.get("collect_type").and_then(|x| x.as_str()).map(String::from),
+        drop_takes: item.get("drop_takes").and_then(|x| x.as_bool()).unwrap_or(false),
     };
     rw.visit_block_mut(block);
 }
